@@ -134,6 +134,32 @@ class Ctx:
         self.rd = CReach(fi)
         self.facts = must_facts(fi.cfg)
 
+    def bfacts(self, node):
+        """Facts at ``node``; a fact on a *named boolean* (``too_old = version < min_version`` ... ``if too_old``) is
+        given as the comparison it names (one level at a time, operands unchanged since)."""
+        out = []
+        for e, pol, text in parsed_facts(self.facts[node.id]):
+            for _ in range(3):
+                if not isinstance(e, ast.Name):
+                    break
+                d = self.rd.unique(node, e.id)
+                if d is None or d.kind != "assign" or not isinstance(d.value, (ast.Compare, ast.BoolOp, ast.UnaryOp, ast.Call, ast.Name)):
+                    break
+                involved = {x.id for x in ast.walk(d.value) if isinstance(x, ast.Name)}
+                if not all(self.rd.IN.get(d.node.id, {}).get(v_) == self.rd.IN.get(node.id, {}).get(v_) for v_ in involved):
+                    break
+                e = d.value
+                while isinstance(e, ast.UnaryOp) and isinstance(e.op, ast.Not):
+                    e, pol = e.operand, not pol
+            if isinstance(e, ast.BoolOp):
+                # a conjunction known true / a disjunction known false gives each operand
+                if (isinstance(e.op, ast.And) and pol) or (isinstance(e.op, ast.Or) and not pol):
+                    for v_ in e.values:
+                        out.append((v_, pol, text))
+                    continue
+            out.append((e, pol, text))
+        return out
+
     def xfacts(self, node):
         """Facts at ``node`` with every local expanded through its reaching definition."""
         out = []
@@ -391,7 +417,7 @@ def classify_time_atoms(cx, r, atoms, m):
 def time_facts(cx, r, m):
     """Order facts at r over (timestamp, clock, [age]) as (coef_ts, coef_clock, coef_age, const, ts_operand, text)."""
     out = []
-    for e, pol, text in parsed_facts(cx.facts[r.id]):
+    for e, pol, text in cx.bfacts(r):
         g = fact_geq0(e, pol)
         if g is None:
             g = fact_geq0(cx.rd.expand(e, r), pol)  # e.g. a module-level constant for the seconds per day
@@ -557,7 +583,7 @@ def check_entry(ck, dec, decoder_signer, sv):
         # floor
         floor = None
         ver_expr = None
-        for e, pol, text in parsed_facts(cx.facts[r.id]):
+        for e, pol, text in cx.bfacts(r):
             g = fact_geq0(e, pol)
             if g is None:
                 continue
@@ -758,7 +784,7 @@ def encoder_tables(ck, enc):
     out = {}
     for r in nonnull_returns(enc):
         ver = None
-        for e, pol, text in parsed_facts(cx.facts[r.id]):
+        for e, pol, text in cx.bfacts(r):
             eq = equality_fact(e, pol)
             if eq and eq[2]:
                 for a, b in ((eq[0], eq[1]), (eq[1], eq[0])):
@@ -834,7 +860,7 @@ def check_tables_parts(ck, cx, r, m, P, ts_op, codec, tab):
     # arity: len(parts) == number of joined elements
     n = len(tab["roles"])
     ok = False
-    for e, pol, text in parsed_facts(cx.facts[r.id]):
+    for e, pol, text in cx.bfacts(r):
         eq = equality_fact(e, pol)
         if eq and eq[2]:
             for a, b in ((eq[0], eq[1]), (eq[1], eq[0])):
@@ -1189,7 +1215,7 @@ def check_get_version(ck, fi):
             v = n.ast.value
             if isinstance(v, ast.Constant):
                 return ("const", v.value)
-            if isinstance(v, ast.Call) and isinstance(v.func, ast.Name) and v.func.id == "int" and any(isinstance(x, ast.Call) and q.call_attr(x) == "group" for x in ast.walk(v)):
+            if isinstance(v, ast.Call) and isinstance(v.func, ast.Name) and v.func.id == "int" and any(isinstance(x, ast.Call) and q.call_attr(x) == "group" for x in ast.walk(cx.rd.expand(v, n))):
                 return ("parsed", None)
             return ("other", q.unparse(v))
         return val
